@@ -55,6 +55,10 @@ var props = map[string]propCfg{
 	"C10": {Level: "fault_enumeration", QuickRuns: 1200, QuickBud: 25 * time.Second, ThorRuns: 200000, ThorBud: 10 * time.Minute,
 		Rule:     "stage 1 enumerates completely: 4 provider configurations × 12 workloads × {no bystander, callback bystander, metadata bystander} × every storage call of the workload's trace × every fault kind the property names for that operation, singly and in all pairs (second fault anywhere in the trace as it unfolds after the first); stage 2 draws random fault schedules over random worlds with pgregory.net/rapid. A case is non-trivial when at least one fault fired or at least two tasks were interleaved; distinct = distinct (schedule signature × outcome signature), counted by hash",
 		Required: []string{"storage_err", "storage_nil_record", "storage_key_without_cert", "storage_cert_without_key", "storage_empty_cert", "alg_unusable", "bystander_during_fault", "recovery_request"}},
+	"C03": {Level: "exploration", QuickRuns: 1500, QuickBud: 22 * time.Second, ThorRuns: 200000, ThorBud: 10 * time.Minute,
+		Required: []string{"success_assertion_checked", "issueinstant_checked_at_exact_instant", "advance_while_parked", "key_rotated"}},
+	"C04": {Level: "exploration", QuickRuns: 1500, QuickBud: 22 * time.Second, ThorRuns: 200000, ThorBud: 10 * time.Minute,
+		Required: []string{"enveloped_signature_checked", "redirect_signature_checked", "metadata_signature_checked", "key_rotated"}},
 	"C08": {Level: "exploration", QuickRuns: 1500, QuickBud: 22 * time.Second, ThorRuns: 200000, ThorBud: 10 * time.Minute,
 		Required: []string{"sso_persisted", "sso_not_persisted", "storage_err", "body_error_at"}},
 }
